@@ -125,6 +125,23 @@ func init() {
 			return true
 		})
 		expect(rejectLoop != "", "toolexecCmd: the loop using rxGarbleFlag.MatchString was not found")
+		// the block of toolexecCmd that lets "go test" flags follow the package list
+		var testSplit string
+		ast.Inspect(findFunc(mp, "toolexecCmd").Body, func(n ast.Node) bool {
+			ifs, ok := n.(*ast.IfStmt)
+			if !ok || testSplit != "" {
+				return true
+			}
+			var cond bytes.Buffer
+			format.Node(&cond, mp.fset, ifs.Cond)
+			var body bytes.Buffer
+			format.Node(&body, mp.fset, ifs.Body)
+			if cond.String() == `command == "test"` && strings.Contains(body.String(), "listArgs") {
+				testSplit = strings.Join(strings.Fields(body.String()), " ")
+			}
+			return true
+		})
+		expect(testSplit != "", "toolexecCmd: the `if command == \"test\"` block computing listFlags/listArgs was not found")
 		var sb strings.Builder
 		sb.WriteString(header + "namespace GV.Gen\n")
 		for _, x := range []struct {
@@ -134,6 +151,7 @@ func init() {
 			fmt.Fprintf(&sb, "def %s : List String := %s\n", x.name, leanStrList(x.l))
 		}
 		fmt.Fprintf(&sb, "def rejectLoopShape : String := %s\n", leanStr(rejectLoop))
+		fmt.Fprintf(&sb, "def testSplitShape : String := %s\n", leanStr(testSplit))
 		sb.WriteString("end GV.Gen\n")
 		writeIfChanged("Steps.lean", sb.String())
 	}
